@@ -3,7 +3,7 @@ from __future__ import annotations
 
 import ast
 
-from sa.loader import norm, norm1, walk_shallow, own_nodes, call_name, is_super_call
+from sa.loader import recv, norm, norm1, walk_shallow, own_nodes, call_name, is_super_call
 from sa.absval import Interp
 from sa.dataflow import node_defs
 from sa.rulekit import (nodes_where, node_calls, node_roots, nodes_calling, return_nodes, own,
@@ -121,14 +121,14 @@ def run(ck):
 
     # ------------------------------------------------------------------ R01.3
     removals = nodes_where(g, lambda n: any(
-        isinstance(c.func, ast.Attribute) and norm(c.func.value) == W and
+        isinstance(c.func, ast.Attribute) and recv(c) == W and
         c.func.attr in ('pop', 'discard', 'remove') for c in node_calls(n)) or
         (isinstance(n.ast, ast.AugAssign) and isinstance(n.ast.op, ast.Sub)
          and norm(n.ast.target) == W))
     for r in removals:
         p = g.path_avoiding(r, [sl.head, g.exit], avoid=[sl.eval], start_successors_only=True)
         # the removed element must be the evaluated one
-        c = [c for c in node_calls(r) if isinstance(c.func, ast.Attribute) and norm(c.func.value) == W]
+        c = [c for c in node_calls(r) if isinstance(c.func, ast.Attribute) and recv(c) == W]
         same = True
         if c and c[0].func.attr == 'pop':
             same = isinstance(r.ast, ast.Assign) and norm(r.ast.targets[0]) == sl.x
@@ -173,7 +173,7 @@ def run(ck):
     ws = nodes_writing_attr(gs, '_output')
     ck.need(R6, len(ws) == 1, "SBlock.set_output: expected exactly one write of _output")
     enq = nodes_where(gs, lambda n: any(call_name(c) in ('put_nowait',) and
-                                        norm(c.func.value) == 'self.circuit.sblock_queue' and
+                                        recv(c) == 'self.circuit.sblock_queue' and
                                         [norm(a) for a in c.args] == ['self'] for c in node_calls(n)))
     check_must_pass(ck, R6, f"{so.fid} :: enqueue after write", so, gs, ws[0], enq, [gs.exit],
                     "notification of the simulator after an output change")
